@@ -104,7 +104,7 @@ def cells(tier):
     out.append(mk(['SD', 'TT+MT', 'SD+TT+MT'], pre_op=True, T=T, dmax=100000 if tier == 'thorough' else 10000))
     out.append(mk(['SD', 'MT'], pre_op=True, started=[1, None], T=T))
     # read, re-send a story with a different duration (same ID and position), read again
-    dm = 100000 if tier == 'thorough' else 10000
+    dm = 10000     # (full range: no path tree of these 3-story histories exhausts within 600 s)
     out.append(mk(['SD', 'TT+MT', 'SD'], resend=0, T=T, dmax=dm))
     out.append(mk(['TT', 'SD', 'MT'], resend=1, T=T, dmax=dm))
     out.append(mk(['SD', 'SD'], resend=1, T=T, dmax=dm))
